@@ -123,7 +123,7 @@ PRIMS: list[tuple[str, str, str]] = [
 PRIM_INDEX = {p[0]: i for i, p in enumerate(PRIMS)}
 
 
-def prim_comp(p: tuple[str, str, str]) -> Comp:
+def prim_comp(p: tuple[Any, ...]) -> Comp:
     return Comp(p[1], p[2], "{{ " + p[0] + " }}")
 
 
@@ -190,6 +190,55 @@ def host_comp(h: tuple[str, str, str, str]) -> Comp:
     return Comp(h[1], h[2], h[0].replace("{E}", h[3]))
 
 
+# Quoted names for bracketed segments/roots: the serialiser has to decide between shorthand
+# (`a.b`) and bracket notation (`a['b']`) per name, and the shorthand is only right when the
+# expression tokenizer reads the bare name back as ONE word that is not a keyword.
+QUOTED_NAMES: list[tuple[str, str]] = [
+    ("404", "all-digits"), ("9", "all-digits"), ("0", "all-digits"), ("007", "all-digits"),
+    ("2-1", "digits-hyphen-digits"), ("2024-07", "digits-hyphen-digits"),
+    ("4a", "digit-led-alphanumeric"), ("1e3", "digit-led-alphanumeric"), ("1-a", "digit-led-alphanumeric"),
+    ("1.5", "float-like"), ("-1", "negative-integer-like"), ("-a", "leading-hyphen"), ("a-", "trailing-hyphen"),
+    ("k-l", "hyphenated"), ("_k", "underscore-led"), ("k?", "trailing-question-mark"), ("k2", "letter-then-digit"),
+    ("\u00e9t\u00e9", "unicode"), ("\u540d", "unicode"), ("k.l", "contains-dot"), ("k[0]", "contains-brackets"), ("", "empty-name"),
+    ("and", "keyword"), ("or", "keyword"), ("not", "keyword"), ("contains", "keyword"), ("nil", "keyword"),
+    ("null", "keyword"), ("true", "keyword"), ("false", "keyword"), ("empty", "keyword"), ("blank", "keyword"),
+    ("in", "keyword"), ("if", "keyword"), ("else", "keyword"), ("with", "keyword"), ("for", "keyword"), ("as", "keyword"),
+    ("limit", "keyword"), ("offset", "keyword"), ("reversed", "keyword"), ("cols", "keyword"), ("continue", "keyword"),
+    ("required", "keyword"), ("size", "special-property"), ("first", "special-property"),
+]
+# (template with {N} = the quoted name, position label, root?)
+NAME_POSITIONS: list[tuple[str, str, bool]] = [
+    ("[{N}]", "root-only", True),
+    ("[{N}].a", "root-then-dot", True),
+    ("[{N}][0]", "root-then-index", True),
+    ("y[{N}]", "last-segment", False),
+    ("y[{N}].a", "middle-segment", False),
+    ("y[{N}][{N}]", "two-consecutive-segments", False),
+    ("y[x][{N}]", "after-nested-path", False),
+    ("a[0][{N}]", "after-index", False),
+    ("y[[{N}]]", "root-of-nested-path", True),
+]
+
+
+# every keyword is tried in the three hosts below; these ones in every host
+_KEYWORD_REPRESENTATIVES = ("and", "contains", "nil", "true", "empty", "if", "limit", "with")
+_FEW_HOSTS = {("output", "primitive"), ("if", "truthy-operand"), ("for", "iterable")}
+
+
+def quoted_name_prims() -> list[tuple[str, str, str, bool]]:
+    out = []
+    for name, cls in QUOTED_NAMES:
+        for tpl, pos, root in NAME_POSITIONS:
+            for q in ("'", '"') if pos in ("root-only", "last-segment") else ("'",):
+                out.append((tpl.replace("{N}", q + name + q), "path",
+                            f"quoted-name:{cls}:{'root' if root else 'segment'}",
+                            cls == "keyword" and name not in _KEYWORD_REPRESENTATIVES))
+    return out
+
+
+EXTRA_PRIMS = quoted_name_prims()
+
+
 def host_prim_instances() -> list[Inst]:
     out: list[Inst] = []
     for h in HOSTS:
@@ -200,6 +249,12 @@ def host_prim_instances() -> list[Inst]:
             out.append(
                 Inst(h[0].replace("{E}", p[0]), h[1], f"{h[2]}:{p[1]}", (host_comp(h), prim_comp(p)), False, core)
             )
+        for p in EXTRA_PRIMS:
+            if p[3] and (h[1], h[2]) not in _FEW_HOSTS:
+                continue
+            # checked alone in every host; combined with the core menu (thorough) in the output host only
+            out.append(Inst(h[0].replace("{E}", p[0]), h[1], f"{h[2]}:{p[1]}", (host_comp(h), prim_comp(p)), False,
+                            False, h[0] == "{{ {E} }}"))
         # the neutral expression itself (may not be in PRIMS)
         if h[3] not in PRIM_INDEX:
             out.append(Inst(h[0].replace("{E}", h[3]), h[1], f"{h[2]}:neutral", (host_comp(h),), False, True))
@@ -351,6 +406,26 @@ GROUPED_COMPARISONS = [
 ]
 
 
+CMP_OPS = ("==", "!=", "<", ">", "<=", ">=", "contains")
+
+
+def grouped_operand_comparisons() -> list[tuple[str, str]]:
+    """A comparison whose left / right / both operands are parenthesised groups: every
+    (outer operator, inner operator) pair and every logical group, on each side."""
+    out: list[tuple[str, str]] = []
+    for outer in CMP_OPS:
+        for inner in CMP_OPS:
+            out.append((f"(u {inner} w) {outer} z", f"({inner})-group-as-left-operand-of-({outer})"))
+            out.append((f"u {outer} (w {inner} z)", f"({inner})-group-as-right-operand-of-({outer})"))
+        out.append((f"(u == w) {outer} (w != z)", f"comparison-groups-as-both-operands-of-({outer})"))
+        out.append((f"u {outer} (w == (z == p))", f"nested-comparison-groups-as-right-operand-of-({outer})"))
+        out.append((f"((u == w) == z) {outer} p", f"nested-comparison-groups-as-left-operand-of-({outer})"))
+        for grp, name in (("p and q", "and"), ("p or q", "or"), ("not p", "not")):
+            out.append((f"({grp}) {outer} z", f"({name})-group-as-left-operand-of-({outer})"))
+            out.append((f"u {outer} ({grp})", f"({name})-group-as-right-operand-of-({outer})"))
+    return out
+
+
 def boolean_instances(tier: str) -> list[Inst]:
     out: list[Inst] = []
     core_set = {repr(t) for t in CORE_TREES}
@@ -377,6 +452,10 @@ def boolean_instances(tier: str) -> list[Inst]:
             out.append(Inst(host.replace("{C}", c), "comparison", feat,
                             (hc, Comp("comparison", feat, IF_HOST.replace("{C}", c))), False,
                             host == IF_HOST and c in ("(p and q) == r",)))
+        for c, feat in grouped_operand_comparisons():
+            out.append(Inst(host.replace("{C}", c), "comparison", feat,
+                            (hc, Comp("comparison", feat, IF_HOST.replace("{C}", c))), False, False,
+                            host == IF_HOST))
     # trees over comparison atoms (depth <= 2)
     for t in trees(2, COMPARISON_ATOMS):
         if isinstance(t, str):
@@ -801,11 +880,40 @@ def _base_sets() -> list[tuple[str, dict[str, Any]]]:
     ]
 
 
+# operands of the grouped comparisons (u <op> w <op> z): collections holding booleans, numbers, strings
+_UWZ: list[dict[str, Any]] = [
+    {"u": [True], "w": 1, "z": 1},
+    {"u": [False, 1], "w": 1, "z": 2},
+    {},
+    {"u": "true false", "w": "a", "z": "a"},
+    {"u": [True, False], "w": 2, "z": 1},
+    {"u": True, "w": True, "z": False},
+    {"u": [1, 2], "w": 1, "z": True},
+    {"u": False, "w": 0, "z": 0},
+]
+
+
+def _with_quoted_names(i: int, d: dict[str, Any]) -> dict[str, Any]:
+    """Bind every QUOTED_NAMES name as a root variable and as a key of y / a[0] / y[x] in some assignments."""
+    names = [n for n, _ in QUOTED_NAMES]
+    if i == 0:
+        d["y"] = dict(d["y"], **{n: {"a": f"y[{n}].a", n: f"y[{n}][{n}]"} for n in names})
+        d.update({n: {"a": f"root[{n}].a"} for n in names})
+    elif i == 4:
+        d["a"] = [dict(d["a"][0], **{n: f"a[0][{n}]" for n in names})] + d["a"][1:]
+        d.update({n: f"root[{n}]" for n in names})
+    elif i == 6:
+        d["y"] = dict(d["y"], y={n: f"y[x][{n}]" for n in names}, **{f"root[{n}][0]": f"y[[{n}]]" for n in names})
+        d.update({n: [f"root[{n}][0]", 1] for n in names})
+    return d
+
+
 def data_sets() -> list[tuple[str, dict[str, Any]]]:
     """Eight assignments; (p, q, r) runs through all eight truth assignments."""
     out = []
     for i, (lab, d) in enumerate(_base_sets()):
-        d = dict(d)
+        d = _with_quoted_names(i, dict(d))
+        d.update(_UWZ[i])
         d["p"], d["q"], d["r"] = bool(i & 1), bool(i & 2), bool(i & 4)
         out.append((f"{lab}[p={int(d['p'])},q={int(d['q'])},r={int(d['r'])}]", d))
     return out
